@@ -1,4 +1,4 @@
-; Sets of pointers and pointer-indexed integer maps (ghost state of the map model, rule R3). A pointer is (object, offset).
+; Sets of pointers and pointer-indexed integer maps (ghost state of the map model, rule M1). A pointer is (object, offset).
 (declare-const pset_empty (Array Int (Array Int Bool)))
 (assert (forall ((o Int) (c Int)) (! (not (select (select pset_empty o) c)) :pattern ((select (select pset_empty o) c)))))
 (define-fun pin ((S (Array Int (Array Int Bool))) (o Int) (c Int)) Bool (select (select S o) c))
